@@ -27,7 +27,10 @@ From Coq Require Import List NArith Bool.
 From Delb.Base Require Import PyStr PyStrFacts.
 From Delb.Tree Require Import ATree.
 From Delb.Gen Require GenDoc.
-From Delb.Xml Require Import Doc DocFacts DocGenFacts.
+From Delb.Gen Require GenPretty.
+From Delb.Xml Require Import Doc DocFacts DocGenFacts DocWriterFacts.
+From Delb.Ns Require Namespaces Prefixes PrefixFacts.
+From Delb.Xml Require Tokens DocPlain DocPlainFacts.
 Import ListNotations.
 Open Scope N_scope.
 
@@ -98,9 +101,18 @@ Print Assumptions C12_newline.
 (* replacing the root keeps prologue and epilogue (model of the setter + _copy_root_siblings);
    in general the new root's own root-level siblings stay outermost *)
 Theorem C12_set_root : forall d n, is_tag n = true ->
-  set_root d (loose n) = Some {| prologue := prologue d; root := n; epilogue := epilogue d |}.
+  set_root false d (loose n) = Some {| prologue := prologue d; root := n; epilogue := epilogue d |}.
 Proof. exact set_root_keeps. Qed.
 Print Assumptions C12_set_root.
+(* assigning the current root to itself changes nothing (fixed finding C12-root-self-assignment, e27f40b:
+   the siblings used to be copied once more, see DocFacts.copy_root_siblings_self); the early return is
+   read from the source on every run (Gen/GenDoc.v) *)
+Theorem C12_set_root_self : forall d, is_tag (root d) = true -> set_root true d d = Some d.
+Proof. exact set_root_self. Qed.
+Print Assumptions C12_set_root_self.
+Theorem C12_generated_setter : GenDoc.gen_setter_returns_on_same_root = true.
+Proof. exact setter_generated. Qed.
+Print Assumptions C12_generated_setter.
 Theorem C12_copy_root_siblings : forall src tgt,
   copy_root_siblings src tgt
   = {| prologue := prologue tgt ++ prologue src; root := root tgt; epilogue := epilogue src ++ epilogue tgt |}.
@@ -141,12 +153,58 @@ Theorem C12_strip_none : forall l, filter (keep false false) l = l.
 Proof. exact filter_keep_ff. Qed.
 Print Assumptions C12_strip_none.
 
+(* ------------------------------------------------------------------------------------------ *)
+(* the plain serializer plugged in: H_root is discharged with C02's round trip theorem
+   (DocPlainFacts.read_root_plain_ser uses RoundTrip/MergeTrip.roundtrip = C02_roundtrip), for the model of
+   Serializer.serialize_root (Xml/Plain.v) and an element reader made of the reference lexer (to find where
+   the element ends) and the reference reader Reader.parse (on exactly that prefix).  Left: H_codec, and the two
+   decidable per-document premises root_shape / no_cr on the root's serialization.  plain_root_ok is the premise
+   of C02_roundtrip (wf_tree, no empty text nodes, a valid caller mapping, the iteration order, the size bound);
+   the root comes back merged (merge_tree), as in C02. *)
+Theorem C12_root_plain : forall fo t rest,
+  DocPlainFacts.plain_root_ok fo t ->
+  DocPlain.read_root_plain (DocPlain.ser_root_plain fo t ++ rest) = Some (DocPlain.norm_plain fo t, rest).
+Proof. exact DocPlainFacts.read_root_plain_ser. Qed.
+Print Assumptions C12_root_plain.
+
+Theorem C12_roundtrip_plain :
+  forall (bytes : Type) (supported : str -> bool) (encode : str -> str -> option bytes) (decode : bytes -> option str),
+    (forall enc body b, supported enc = true ->
+        encode enc (decl_of enc ++ body) = Some b -> decode b = Some (decl_of enc ++ body)) ->
+    forall enc ls nl fo d b,
+      supported enc = true -> label_ok enc = true -> linesep_ok ls ->
+      doc_ok d = true -> DocPlainFacts.plain_root_ok fo (root d) ->
+      root_shape (DocPlain.ser_root_plain fo (root d)) = true -> no_cr (DocPlain.ser_root_plain fo (root d)) = true ->
+      doc_write DocPlain.plain_kind DocPlain.ser_root_plain encode ls enc nl fo d = Some b ->
+      doc_read DocPlain.read_root_plain decode b = Ok (Some (upper enc), norm_doc DocPlain.norm_plain fo d).
+Proof. exact DocPlainFacts.roundtrip_bytes_plain. Qed.
+Print Assumptions C12_roundtrip_plain.
+
+Theorem C12_roundtrip_str_plain : forall nl fo d,
+  doc_ok d = true -> DocPlainFacts.plain_root_ok fo (root d) ->
+  root_shape (DocPlain.ser_root_plain fo (root d)) = true -> no_cr (DocPlain.ser_root_plain fo (root d)) = true ->
+  parse_doc DocPlain.read_root_plain (nl_in (doc_str DocPlain.plain_kind DocPlain.ser_root_plain nl fo d))
+  = Ok (Some (upper L_UTF8), norm_doc DocPlain.norm_plain fo d).
+Proof. exact DocPlainFacts.roundtrip_str_plain. Qed.
+Print Assumptions C12_roundtrip_str_plain.
+
 (* the tie to the source: the writer calls of Document.__serialize, str() of comments and PIs and the
    comment validator, as regenerated from /repo on this run (Gen/GenDoc.v), are what the model uses *)
 Theorem C12_generated_chunks : forall k enc pro rootc epi,
   doc_chunks k enc pro rootc epi = GenDoc.gen_doc_chunks (is_pretty k) (upper enc) pro rootc epi.
 Proof. exact doc_chunks_generated. Qed.
 Print Assumptions C12_generated_chunks.
+(* the writer of the wrapping serializer as the model uses it (only "offset == 0" is kept) is the generated
+   _LengthTrackingWriter.__call__ (Gen/GenPretty.v) with preserve_space = False; offsets stay >= 0 *)
+Theorem C12_generated_writer : forall off data, (0 <= off)%Z ->
+  ltw_call (off =? 0)%Z data
+  = ((snd (GenPretty.writer_call false off data) =? 0)%Z, fst (GenPretty.writer_call false off data)).
+Proof. exact ltw_call_generated. Qed.
+Print Assumptions C12_generated_writer.
+Theorem C12_generated_writer_offset : forall p off data,
+  (0 <= off)%Z -> (0 <= snd (GenPretty.writer_call p off data))%Z.
+Proof. exact writer_call_offset_nonneg. Qed.
+Print Assumptions C12_generated_writer_offset.
 Theorem C12_generated_str : forall n, is_misc n = true -> misc_str n = gen_misc_str n.
 Proof. exact misc_str_generated. Qed.
 Print Assumptions C12_generated_str.
@@ -208,6 +266,34 @@ Example C12_example_strip :
      = Tag [] [114] [] [Text [97; 98]; PI [112] []].
 Proof. vm_compute. repeat split. Qed.
 Example C12_example_set_root :
-  set_root ex_doc (loose (Tag [] [110] [] [])) = Some {| prologue := prologue ex_doc; root := Tag [] [110] [] []; epilogue := epilogue ex_doc |}
-  /\ set_root ex_doc (loose (Text [120])) = None.
-Proof. vm_compute. split; reflexivity. Qed.
+  set_root false ex_doc (loose (Tag [] [110] [] [])) = Some {| prologue := prologue ex_doc; root := Tag [] [110] [] []; epilogue := epilogue ex_doc |}
+  /\ set_root false ex_doc (loose (Text [120])) = None
+  /\ set_root true ex_doc ex_doc = Some ex_doc.
+Proof. vm_compute. repeat split; reflexivity. Qed.
+
+(* the plain instance on a real tree: <r k="v">a &amp; b<x/><!--c--></r> with prologue and epilogue, CRLF, read back *)
+Definition ex_plain_root : node :=
+  Tag [] [114] [([], [107], [118])] [Text [97; 32; 38; 32; 98]; Tag [] [120] [] []; Comment [99]].
+Definition ex_plain_doc : doc := {| prologue := prologue ex_doc; root := ex_plain_root; epilogue := epilogue ex_doc |}.
+Definition ex_plain_fo : DocPlain.plain_fmt := ([], Prefixes.default_order (Prefixes.bfs_of ex_plain_root)).
+Example C12_example_plain :
+  doc_read DocPlain.read_root_plain toy_decode
+    (match doc_write DocPlain.plain_kind DocPlain.ser_root_plain toy_encode [LF] L_UTF8 NlCRLF ex_plain_fo ex_plain_doc
+     with Some b => b | None => [] end)
+  = Ok (Some [85; 84; 70; 45; 56], ex_plain_doc)
+  /\ root_shape (DocPlain.ser_root_plain ex_plain_fo ex_plain_root) = true
+  /\ no_cr (DocPlain.ser_root_plain ex_plain_fo ex_plain_root) = true
+  /\ DocPlain.ser_root_plain ex_plain_fo ex_plain_root
+     = [60; 114; 32; 107; 61; 34; 118; 34; 62; 97; 32; 38; 97; 109; 112; 59; 32; 98; 60; 120; 47; 62;
+        60; 33; 45; 45; 99; 45; 45; 62; 60; 47; 114; 62].
+Proof. vm_compute. repeat split; reflexivity. Qed.
+Example C12_example_plain_premises : DocPlainFacts.plain_root_ok ex_plain_fo ex_plain_root.
+Proof.
+  unfold DocPlainFacts.plain_root_ok, ex_plain_fo. cbn [fst snd]. split.
+  { split; [reflexivity|]. cbn [Tokens.wf_node ex_plain_root].
+    unfold Tokens.uri_ok, Tokens.attr_wf, Tokens.text_char_ok, Tokens.attr_char_ok.
+    repeat (split || constructor); try reflexivity; discriminate. }
+  split; [reflexivity|]. split.
+  { split; [repeat constructor|]. eexists. vm_compute. reflexivity. }
+  split; [intros p n []|]. split; [apply PrefixFacts.default_order_ok|vm_compute; reflexivity].
+Qed.
